@@ -18,7 +18,7 @@ func init() {
 		ID:      "C08",
 		Level:   "other",
 		Explain: "The equation between the two renderings relates two runs and is not decided. Decided is one clause of its mechanism, a necessary condition: a leaf block parser must not consume the line terminator, otherwise the next line's container marker is taken as content. (L) In every BlockParser.Open/Continue of the module and the module helpers they hand the reader to, AdvanceLine is never called on the reader, and no Advance/AdvanceAndSetPadding argument is — after normalising to a linear form over the peeked segment's Stop, Start, Padding, len(line) and Segment.Len() — provably at least the full length of the peeked line. The rule flags only what is provably a whole line (a bug finder without false alarms, not a proof). Does NOT decide marker/tab column arithmetic, blank-line bookkeeping or lazy continuation.",
-		Rules:   []func(*World, *Report){ruleStayOnLine, ruleFreeParsersRejectBlankLines, ruleQuoteMarkerAndOneSpace, ruleOneBlankNotion, ruleQuoteWrapper, ruleSpansThroughReader},
+		Rules:   []func(*World, *Report){ruleStayOnLine, ruleFreeParsersRejectBlankLines, ruleQuoteMarkerAndOneSpace, ruleOneBlankNotion, ruleQuoteWrapper, ruleSpansThroughReader, ruleRenderersReadPerSegment},
 	})
 	register(&Property{
 		ID:      "C09",
@@ -30,7 +30,7 @@ func init() {
 		ID:      "C11",
 		Level:   "other",
 		Explain: "The trigger-free equations compare two configurations on all inputs and are not decided. Decided are two clauses: (G) extension.GFM's Extend consists of exactly one Extend(m) call on each of the singletons Linkify, Table, Strikethrough, TaskList with the same argument and nothing else, so GFM is its four members by construction; (B) in the render function registered for text nodes, every path on which SoftLineBreak() is true ends with a write containing a newline unless the path skipped it on the result of the East-Asian width predicate — only the predicate may suppress a soft break, so ASCII-only input is rendered the same with the CJK extension. Does NOT decide the equations for Strikethrough, Table, TaskList, Footnote, DefinitionList, Typographer, Linkify or escaped space.",
-		Rules:   []func(*World, *Report){ruleGFMComposition, ruleSoftBreakKept, ruleEscapedSpaceExact, ruleTriggerSets, ruleTableNeedsDash, ruleDecliningParserRestored, ruleDecliningParserLeavesNoNode, ruleLinkifyNeedsItsTriggers},
+		Rules:   []func(*World, *Report){ruleGFMComposition, ruleSoftBreakKept, ruleEscapedSpaceExact, ruleTriggerSets, ruleTableNeedsDash, ruleDecliningParserRestored, ruleDecliningParserLeavesNoNode, ruleLinkifyNeedsItsTriggers, ruleExtendOnlyRegisters},
 	})
 }
 
